@@ -4,6 +4,7 @@ Lifting the single-operation lemmas over arbitrary operation sequences: after an
 (up to order), satisfies the invariant, and every `cache` call returned normally.
 -/
 import RioModel.Proofs.TreeCache
+import RioModel.Proofs.TreeModify
 set_option linter.unusedSimpArgs false
 set_option linter.unusedVariables false
 set_option linter.unusedSectionVars false
@@ -135,6 +136,25 @@ theorem IdNodup.refInsert {L : List (Entry ι V)} (h : IdNodup L) {p : List Char
         exact hk ⟨hid a (by simp) e', e'⟩
       · exact h.1 e he
 
+theorem refModify_id (p : List Char) (g : ι → V → V) (e : Entry ι V) :
+    (if e.pat = p then (⟨e.pat, e.id, g e.id e.val⟩ : Entry ι V) else e).id = e.id ∧
+    (if e.pat = p then (⟨e.pat, e.id, g e.id e.val⟩ : Entry ι V) else e).pat = e.pat := by
+  split <;> simp
+
+theorem mem_refModify {L : List (Entry ι V)} {p : List Char} {g : ι → V → V} {e : Entry ι V}
+    (h : e ∈ refModify L p g) : ∃ e0 ∈ L, e.pat = e0.pat ∧ e.id = e0.id := by
+  simp only [refModify, List.mem_map] at h
+  obtain ⟨e0, he0, rfl⟩ := h
+  exact ⟨e0, he0, (refModify_id p g e0).2, (refModify_id p g e0).1⟩
+
+theorem IdNodup.refModify {L : List (Entry ι V)} (h : IdNodup L) (p : List Char) (g : ι → V → V) :
+    IdNodup (refModify L p g) := by
+  unfold IdNodup Tree.refModify at *
+  rw [List.pairwise_map]
+  refine h.imp ?_
+  intro a b hab
+  rw [(refModify_id p g a).1, (refModify_id p g b).1]; exact hab
+
 theorem mem_refRemove {L : List (Entry ι V)} {id : ι} {e : Entry ι V} (h : e ∈ refRemove L id) : e ∈ L := by
   induction L with
   | nil => simp [refRemove] at h
@@ -190,6 +210,12 @@ theorem step_spec (E : Engine) {Good : List Char → Prop} {good : List Char →
         rw [hp]; exact hdom e0 he0⟩
     rw [contents_retain]
     exact hperm.filterMap _
+  | modify p g =>
+    refine ⟨t.modifyAt p g, rfl, ⟨inv_modifyAt t p g hinv, ?_⟩, hnd.refModify p g, ?_⟩
+    · rw [contents_modifyAt t p g hinv]; exact hperm.map _
+    · intro e he
+      obtain ⟨e0, he0, hp, _⟩ := mem_refModify he
+      rw [hp]; exact hdom e0 he0
   | cache limit level =>
     obtain ⟨t', n, h1, hs, _⟩ := treeCache_spec E t limit level
     refine ⟨t', by simp [treeStep, h1], ⟨?_, ?_⟩, hnd, hdom⟩
